@@ -112,12 +112,85 @@ func corpus(b int) []tcase {
 			{Name: "b", Origin: "p", Replaces: []string{"a"}, Files: with(usr, f("usr/bin/x", "Y", 0o755))},
 			{Name: "c", Origin: "o", Files: with(usr, f("usr/bin/x", "Z", 0o755))}}},
 	}
+	cs = append(cs,
+		// seeded C07-3: ownership must stay with the first of two identical copies
+		tcase{Note: "identical pair, then a third package of the second one's origin with other content", Pkgs: []pkg{
+			{Name: "a", Origin: "foo", Files: with(usr, f("usr/bin/x", "X", 0o755))},
+			{Name: "b", Origin: "bar", Files: with(usr, f("usr/bin/x", "X", 0o755))},
+			{Name: "c", Origin: "bar", Files: with(usr, f("usr/bin/x", "Y", 0o755))}}},
+		tcase{Note: "identical pair, then a third package of the FIRST one's origin with other content", Pkgs: []pkg{
+			{Name: "a", Origin: "foo", Files: with(usr, f("usr/bin/x", "X", 0o755))},
+			{Name: "b", Origin: "bar", Files: with(usr, f("usr/bin/x", "X", 0o755))},
+			{Name: "c", Origin: "foo", Files: with(usr, f("usr/bin/x", "Y", 0o755))}}},
+		tcase{Note: "identical pair, then a third package that replaces the second one", Pkgs: []pkg{
+			{Name: "a", Origin: "a", Files: with(usr, f("usr/bin/x", "X", 0o755))},
+			{Name: "b", Origin: "b", Files: with(usr, f("usr/bin/x", "X", 0o755))},
+			{Name: "c", Origin: "c", Replaces: []string{"b"}, Files: with(usr, f("usr/bin/x", "Y", 0o755))}}},
+		tcase{Note: "identical content packaged with different modes", Pkgs: []pkg{
+			{Name: "a", Origin: "a", Files: with(usr, f("usr/bin/x", "X", 0o600))},
+			{Name: "b", Origin: "b", Files: with(usr, f("usr/bin/x", "X", 0o644))}}},
+		tcase{Note: "identical content packaged with different owners", Pkgs: []pkg{
+			{Name: "a", Origin: "a", Files: with(usr, f("usr/bin/x", "X", 0o644))},
+			{Name: "b", Origin: "b", Files: with(usr, own(f("usr/bin/x", "X", 0o644), 1000, 1000))}}},
+		// a regular file whose BYTES are the link's target string: tarfs compares checksums only
+		tcase{Note: "link then a regular file whose content is the link's target string", Pkgs: []pkg{
+			{Name: "a", Origin: "a", Files: with(usr, s("usr/bin/x", "y"))},
+			{Name: "b", Origin: "b", Files: with(usr, f("usr/bin/x", "y", 0o644))}}},
+		tcase{Note: "regular file then a link whose target string is the file's content", Pkgs: []pkg{
+			{Name: "a", Origin: "a", Files: with(usr, f("usr/bin/x", "y", 0o644))},
+			{Name: "b", Origin: "b", Files: with(usr, s("usr/bin/x", "y"))}}},
+	)
 	for i := range cs {
 		cs[i].Backend = b
 	}
 	return cs
 }
 
+
+// ---- kind clashes -----------------------------------------------------------
+// Two packages ship usr/bin/x with different KINDS (directory / regular file /
+// symbolic link), in both orders, with an empty and a non-empty file, and the
+// three relations (unrelated, same origin, the later one declares replaces).
+func kindCorpus(b int) []tcase {
+	base := []hdr{d("usr", 0o755), d("usr/bin", 0o755), d("usr/lib", 0o755), f("usr/lib/t", "T", 0o644)}
+	with := func(more ...hdr) []hdr { return append(append([]hdr{}, base...), more...) }
+	type ent struct {
+		name string
+		h    hdr
+	}
+	ents := []ent{
+		{"dir", d("usr/bin/x", 0o755)},
+		{"empty file", f("usr/bin/x", "", 0o644)},
+		{"file", f("usr/bin/x", "X", 0o644)},
+		{"link to a directory", s("usr/bin/x", "../lib")},
+		{"link to a file", s("usr/bin/x", "../lib/t")},
+		{"dangling link", s("usr/bin/x", "nowhere")},
+	}
+	kindOf := func(e ent) int { return e.h.Kind }
+	rels := []struct {
+		name   string
+		oa, ob string
+		rb     []string
+	}{
+		{"unrelated", "a", "b", nil},
+		{"same origin", "o", "o", nil},
+		{"later replaces earlier", "a", "b", []string{"a"}},
+	}
+	var cs []tcase
+	for _, e1 := range ents {
+		for _, e2 := range ents {
+			if kindOf(e1) == kindOf(e2) {
+				continue
+			}
+			for _, r := range rels {
+				cs = append(cs, tcase{Backend: b, Note: "kind clash: " + e1.name + " then " + e2.name + ", " + r.name, Pkgs: []pkg{
+					{Name: "a", Origin: r.oa, Files: with(e1.h)},
+					{Name: "b", Origin: r.ob, Replaces: r.rb, Files: with(e2.h)}}})
+			}
+		}
+	}
+	return cs
+}
 
 // ---- random ordered package lists ------------------------------------------
 
@@ -139,6 +212,11 @@ func genCase(r *gal.Rand, b int) tcase {
 	c := tcase{Backend: b}
 	envelopeOnly := r.Chance(3, 5) // most cases keep owners root and directory modes equal
 	malformed := r.Chance(1, 8)
+	kindy := r.Chance(1, 4) // the same path may be shipped with different KINDS
+	chain := ""             // a path that most packages of the case ship (three-package chains)
+	if !kindy && r.Chance(1, 4) {
+		chain = gal.Pick(r, filePool)
+	}
 	for i := 0; i < n; i++ {
 		p := pkg{Name: names[i]}
 		switch r.Intn(6) {
@@ -169,7 +247,32 @@ func genCase(r *gal.Rand, b int) tcase {
 		var items []hdr
 		nf := 1 + r.Intn(3)
 		seen := map[string]bool{}
+		if chain != "" && r.Chance(4, 5) {
+			// most packages of a "chain" case ship one common path, with few distinct
+			// contents and several modes: identical pairs followed by a different copy
+			seen[chain] = true
+			items = append(items, f(chain, gal.Pick(r, []string{"A", "A", "B"}), gal.Pick(r, []int64{0o644, 0o755, 0o600})))
+		}
 		for k := 0; k < nf; k++ {
+			if kindy && r.Chance(1, 2) {
+				// one path, any kind: directory / regular file (possibly empty) / link
+				kp := gal.Pick(r, []string{"usr/bin/x", "usr/bin/y", "opt/d/s", "opt/d"})
+				if seen[kp] {
+					continue
+				}
+				seen[kp] = true
+				switch r.Intn(4) {
+				case 0:
+					items = append(items, d(kp, 0o755))
+				case 1:
+					items = append(items, f(kp, gal.Pick(r, []string{"", "A", "y"}), gal.Pick(r, []int64{0o644, 0o755})))
+				case 2:
+					items = append(items, s(kp, gal.Pick(r, []string{"x", "y", "../lib", "../../usr/lib/l", "nowhere"})))
+				default:
+					items = append(items, f(kp, "", 0o644))
+				}
+				continue
+			}
 			if r.Chance(1, 4) {
 				sp := gal.Pick(r, symPool)
 				if !seen[sp] {
@@ -206,6 +309,9 @@ func genCase(r *gal.Rand, b int) tcase {
 		}
 		sort.Strings(dl)
 		for _, dname := range dl {
+			if seen[dname] {
+				continue // the package ships this path itself (as a file, a link or a directory)
+			}
 			if malformed && r.Chance(1, 3) {
 				continue // a missing directory header
 			}
@@ -319,10 +425,16 @@ func stage(out string, seed uint64, tier string, b int) error {
 	for _, c := range corpus(b) {
 		addCase(w, c)
 	}
+	for _, c := range kindCorpus(b) {
+		addCase(w, c)
+	}
 	r := gal.NewRand(seed*3 + uint64(b))
 	n := 160
 	if tier == "thorough" {
 		n = 2500
+	}
+	if tier == "corpus" { // development aid: the hand-picked cases only
+		n = 0
 	}
 	for i := 0; i < n; i++ {
 		addCase(w, genCase(r, b))
